@@ -147,6 +147,11 @@ theorem WStable.maybeQueuePingreq {w w' : World} {now : Nat} (heq : w.maybeQueue
   · simp at heq
   · simp at heq; subst heq; exact hq.sess _ _ h
 
+theorem WStable.discFail (w : World) (ctx : StepCtx) (h : Q w) : Q (w.discFail ctx) := by
+  rcases discFail_cases w ctx with ⟨e, _⟩ | ⟨e, _⟩ <;> rw [e]
+  · exact h
+  · exact hq.handleDisconnect _ h
+
 /-- The statement proved for all thirteen mutually recursive machine functions at once. -/
 def WMachine (Q : World → Prop) (fuel : Nat) : Prop :=
   (∀ w k, Q w → Q (flushLoop fuel w k)) ∧
@@ -195,7 +200,7 @@ theorem wstep_doStepWrite (fuel : Nat) (ih : WMachine Q fuel) :
   simp only [doStepWrite]
   split
   · rename_i w' heq; exact hq.suspend _ _ (hq.ioWrite' heq h)
-  · rename_i w' heq; exact hq.finishErr _ _ _ (hq.ioWrite' heq h)
+  · rename_i w' heq; exact hq.finishErr _ _ _ (hq.discFail _ _ (hq.ioWrite' heq h))
   · rename_i w' k heq; exact hq.finishErr _ _ _ (hq.handleDisconnect _ (hq.ioWrite' heq h))
   · rename_i w' count heq
     have h2 : Q (w'.setWritten pkt (wr + count) len) := hq.setWritten _ _ _ _ (hq.ioWrite' heq h)
@@ -209,13 +214,13 @@ theorem wstep_performStep (fuel : Nat) (ih : WMachine Q fuel) :
   obtain ⟨_, _, i3, i4, i5, _⟩ := ih
   simp only [performStep]
   split
-  · exact hq.finishErr _ _ _ h
+  · exact hq.finishErr _ _ _ (hq.discFail _ _ h)
   · exact i5 _ _ _ h
   · split
-    · exact hq.finishErr _ _ _ h
+    · exact hq.finishErr _ _ _ (hq.discFail _ _ h)
     · exact i4 _ _ _ _ h
   · split
-    · exact hq.finishErr _ _ _ h
+    · exact hq.finishErr _ _ _ (hq.discFail _ _ h)
     · exact i3 _ _ _ _ _ _ _ h
 
 theorem wstep_flushLoop (fuel : Nat) (ih : WMachine Q fuel) :
@@ -224,7 +229,7 @@ theorem wstep_flushLoop (fuel : Nat) (ih : WMachine Q fuel) :
   obtain ⟨_, i2, _, _, _, i6, _⟩ := ih
   simp only [flushLoop]
   split
-  · exact hq.finishErr _ _ _ h
+  · exact hq.finishErr _ _ _ (hq.discFail _ _ h)
   · rename_i w' heq
     have h' := hq.maybeQueuePingreq heq h
     split
